@@ -31,3 +31,11 @@ pub fn make(id: &str, corpus: Arc<Corpus>) -> Option<Box<dyn Scenario>> {
         _ => return None,
     })
 }
+
+/// Scenario instance that can only execute given plans (no corpus needed).
+pub fn make_exec_only(id: &str) -> Option<Box<dyn Scenario>> {
+    match id {
+        "C01" => Some(Box::new(c01::C01::exec_only())),
+        _ => None,
+    }
+}
